@@ -349,6 +349,11 @@ func init() {
 			return f(a1, a2)
 		})
 	}
+	reg(coin+"IsValid", "denom valid (uninterpreted validdenom) and amount >= 0 (a nil amount is not modelled)", func(x *Exec, st *State, ci *callInfo, a []Val) Val {
+		d, am := coinOf(x, a[0])
+		x.e.declareFun("uf_validdenom", "(String) Bool")
+		return And(app(SBool, "uf_validdenom", d), Ge(am, IntLit(0)))
+	})
 	reg(coin+"IsPositive", "amount > 0", func(x *Exec, st *State, ci *callInfo, a []Val) Val { _, am := coinOf(x, a[0]); return Gt(am, IntLit(0)) })
 	reg(coin+"IsZero", "amount == 0", func(x *Exec, st *State, ci *callInfo, a []Val) Val { _, am := coinOf(x, a[0]); return Eq(am, IntLit(0)) })
 	reg(coin+"IsNegative", "amount < 0", func(x *Exec, st *State, ci *callInfo, a []Val) Val { _, am := coinOf(x, a[0]); return Lt(am, IntLit(0)) })
